@@ -153,7 +153,10 @@ func (c *TextLayout) ToBytes(e *Event) []byte {
 	enc.AppendEncoderEnd()
 
 	buf.WriteByte('\n')
-	return buf.Bytes()
+
+	// buf goes back to the pool when this function returns and may be handed
+	// to another goroutine right away, so the caller gets its own copy.
+	return bytes.Clone(buf.Bytes())
 }
 
 // JSONLayout formats a log event as a structured JSON object.
@@ -184,5 +187,8 @@ func (c *JSONLayout) ToBytes(e *Event) []byte {
 	enc.AppendEncoderEnd()
 
 	buf.WriteByte('\n')
-	return buf.Bytes()
+
+	// buf goes back to the pool when this function returns and may be handed
+	// to another goroutine right away, so the caller gets its own copy.
+	return bytes.Clone(buf.Bytes())
 }
